@@ -1,8 +1,1999 @@
-// C05 harness (stub: replaced by the real harness).
-use crate::vx::report::Report;
+// C05 harness -- a malformed UPDATE never installs a route; the session resets
+// only if it must.
+//
+// Technique: bounded-exhaustive enumeration.  Hand-built valid UPDATE frames
+// (3 shapes x 2 attribute orders x AS width {2,4}, every attribute kind present)
+// are corrupted by every entry of a corruption menu (quick: single corruptions,
+// thorough: all pairs on distinct attributes), and each corrupted frame is fed to
+// the real receive path  PeerCodec::try_parse -> validate_message(parsed, is_ebgp)
+// for the four peer roles.
+//
+// Oracle: an INDEPENDENT RFC 4271 / RFC 7606 reference receiver (`reference`)
+// re-reads the final bytes (it never looks at how they were produced, and never
+// calls the subject) and states what a conforming receiver may do:
+//   * structural  : NLRI cannot be located / parsed -> a reset is acceptable and
+//                   the withdraw clauses are not evaluated ("relaxed");
+//   * hard faults : malformed / wrong flags / unknown well-known / missing
+//                   mandatory -> treat-as-withdraw is REQUIRED;
+//   * disc faults : optional non-transitive (by code or wire flags), AS4_*,
+//                   iBGP-only attributes from an external peer, and (RFC 7606
+//                   7.6/7.7) ATOMIC_AGGREGATE / AGGREGATOR -> either
+//                   treat-as-withdraw or "kept without that attribute".
+// Clauses (signature classes):
+//   faulty-attr-believed, not-treated-as-withdraw, missing-mandatory-accepted,
+//   withdrawal-lost, needless-reset, ibgp-only-attr-believed, panic.
+// Signature = C05/<clause>/<attr>:<fault class>[(<detail>)] where the fault class is
+// the reference's classification of the final bytes ("length", "length=0", "flags",
+// "value", "segment-length-0", "tlv", "header-truncated-2-left", ...), so that every
+// corruption exposing the same unchecked condition shares one signature; the stored
+// witness is the smallest case (valid base < single corruption < pair).  A pair
+// inherits the signature of the single corruption that already shows the finding
+// (see `signature`); only an interaction-only finding names both faults.
+// Deliberately permissive readings (never alarmed): partial bit on any attribute;
+// NEXT_HOP 0.0.0.0 (RFC 7606 7.3 defines malformed by length only); NEXT_HOP in
+// an UPDATE without legacy NLRI (RFC 4760 3: ignore); content of PREFIX_SID / LS /
+// TUNNEL_ENCAP; duplicates of non-MP attributes (first kept or withdraw); reset
+// OR treat-as-withdraw when an attribute length overruns the block; reset OR
+// treat-as-withdraw for MP_REACH / MP_UNREACH with wrong flags.
+//
+// Only crate::vx, crate::mkmsg, crate::wire are referenced (so the module can be
+// included into the daemon's test build for the end-to-end replay).
+// Reusable API: `corpus(quick)`, `reference`, `observe_messages`, `judge`.
 
-pub fn run(_replay: Option<&str>) -> Report {
+use crate::mkmsg::{self, PairDesc};
+use crate::vx::enumr;
+use crate::vx::report::{catch, hex, unhex, Report, Violation};
+use crate::wire;
+use rustybgp_packet::bgp::{self as pbgp, Attribute, Family, Message, Nlri, Update};
+use std::collections::{BTreeMap, BTreeSet, HashSet};
+use std::sync::{Mutex, OnceLock};
+
+// ===========================================================================
+// Roles
+// ===========================================================================
+
+#[derive(Clone, Copy, Debug, PartialEq, Eq, PartialOrd, Ord, Hash)]
+pub enum Role {
+    Ebgp,
+    RsClient,
+    Ibgp,
+    ConfedEbgp,
+}
+
+pub const ROLES: [Role; 4] = [Role::Ebgp, Role::RsClient, Role::Ibgp, Role::ConfedEbgp];
+
+impl Role {
+    pub fn name(self) -> &'static str {
+        match self {
+            Role::Ebgp => "Ebgp",
+            Role::RsClient => "RsClient",
+            Role::Ibgp => "Ibgp",
+            Role::ConfedEbgp => "ConfedEbgp",
+        }
+    }
+    pub fn parse(s: &str) -> Option<Role> {
+        ROLES.iter().copied().find(|r| r.name() == s)
+    }
+    /// RFC 4271 1.1 "external peer": a peer in a different AS that is not a member
+    /// of the same confederation (RFC 5065 5.1 keeps LOCAL_PREF between member
+    /// ASes).  A route-server client is an eBGP neighbour (RFC 7947 2).
+    pub fn external(self) -> bool {
+        matches!(self, Role::Ebgp | Role::RsClient)
+    }
+    /// The `is_ebgp` argument the daemon passes to `validate_message` for a peer
+    /// of this role (see `daemon_is_ebgp_roles`).
+    pub fn daemon_is_ebgp(self) -> bool {
+        daemon_is_ebgp_roles().0.contains(&self)
+    }
+}
+
+/// The set of roles for which the daemon computes `is_ebgp == true`, read from
+/// the statement `let is_ebgp = matches!(self.export_ctx.role, ...)` in
+/// daemon/src/event/mod.rs so that the mirror follows the source.  Falls back to
+/// {Ebgp} (the expression at the time of writing) when the line is not found.
+pub fn daemon_is_ebgp_roles() -> &'static (Vec<Role>, String) {
+    static CELL: OnceLock<(Vec<Role>, String)> = OnceLock::new();
+    CELL.get_or_init(|| {
+        let repo = std::env::var("VERIF_REPO").unwrap_or_else(|_| "/repo".into());
+        let path = format!("{repo}/daemon/src/event/mod.rs");
+        let fallback = |why: &str| (vec![Role::Ebgp], format!("fallback {{Ebgp}} ({why})"));
+        let Ok(src) = std::fs::read_to_string(&path) else { return fallback("source not readable") };
+        let Some(pos) = src.find("let is_ebgp") else { return fallback("`let is_ebgp` not found") };
+        let stmt: String = src[pos..].chars().take_while(|c| *c != ';').collect();
+        if !stmt.contains("matches!") {
+            return fallback("expression is not a matches!()");
+        }
+        let negated = stmt.contains("!matches!");
+        let mut named = Vec::new();
+        for (tok, r) in [
+            ("PeerRole::Ebgp", Role::Ebgp),
+            ("PeerRole::RsClient", Role::RsClient),
+            ("PeerRole::IbgpRrClient", Role::Ibgp),
+            ("PeerRole::Ibgp", Role::Ibgp),
+            ("PeerRole::ConfedEbgp", Role::ConfedEbgp),
+        ] {
+            // "PeerRole::Ibgp" is a prefix of "PeerRole::IbgpRrClient": require a non-identifier char after
+            let mut from = 0;
+            while let Some(i) = stmt[from..].find(tok) {
+                let end = from + i + tok.len();
+                let next = stmt[end..].chars().next();
+                if !next.is_some_and(|c| c.is_alphanumeric() || c == '_') && !named.contains(&r) {
+                    named.push(r);
+                }
+                from = end;
+            }
+        }
+        if named.is_empty() {
+            return fallback("no PeerRole named");
+        }
+        let set: Vec<Role> = ROLES.iter().copied().filter(|r| named.contains(r) != negated).collect();
+        (set, format!("{path}: `{}`", stmt.split_whitespace().collect::<Vec<_>>().join(" ")))
+    })
+}
+
+// ===========================================================================
+// Message model (generator side)
+// ===========================================================================
+
+#[derive(Clone, Debug)]
+struct Item {
+    name: &'static str,
+    flags: u8,
+    code: u8,
+    /// encode with the extended-length bit and a 2-byte length
+    ext: bool,
+    value: Vec<u8>,
+    /// a second, different, valid value (for duplicates)
+    alt: Vec<u8>,
+    /// raw override of the length field (value bytes unchanged)
+    len_raw: Option<usize>,
+}
+
+impl Item {
+    fn hdr_len(&self) -> usize {
+        if self.ext { 4 } else { 3 }
+    }
+    fn bytes(&self) -> Vec<u8> {
+        let mut o = vec![self.flags | if self.ext { 0x10 } else { 0 }, self.code];
+        let l = self.len_raw.unwrap_or(self.value.len());
+        if self.ext {
+            o.extend_from_slice(&(l as u16).to_be_bytes());
+        } else {
+            o.push(l as u8);
+        }
+        o.extend_from_slice(&self.value);
+        o
+    }
+}
+
+#[derive(Clone, Debug)]
+struct Msg {
+    withdrawn: Vec<u8>,
+    items: Vec<Item>,
+    nlri: Vec<u8>,
+    wlen_raw: Option<usize>,
+    /// truncate the attribute block to this many bytes (bytes removed)
+    cut: Option<usize>,
+    /// raw override of the total path attribute length field
+    tal_raw: Option<usize>,
+}
+
+impl Msg {
+    fn block(&self) -> Vec<u8> {
+        let mut b = Vec::new();
+        for it in &self.items {
+            b.extend_from_slice(&it.bytes());
+        }
+        b
+    }
+    /// offset of item `name` inside the block
+    fn offset_of(&self, name: &str) -> Option<(usize, &Item)> {
+        let mut off = 0;
+        for it in &self.items {
+            if it.name == name {
+                return Some((off, it));
+            }
+            off += it.bytes().len();
+        }
+        None
+    }
+    fn frame(&self) -> Vec<u8> {
+        let mut block = self.block();
+        if let Some(p) = self.cut {
+            block.truncate(p);
+        }
+        let tal = self.tal_raw.unwrap_or(block.len());
+        let wlen = self.wlen_raw.unwrap_or(self.withdrawn.len());
+        let mut body = Vec::new();
+        body.extend_from_slice(&(wlen as u16).to_be_bytes());
+        body.extend_from_slice(&self.withdrawn);
+        body.extend_from_slice(&(tal as u16).to_be_bytes());
+        body.extend_from_slice(&block);
+        body.extend_from_slice(&self.nlri);
+        let mut f = vec![0xffu8; 16];
+        f.extend_from_slice(&((19 + body.len()) as u16).to_be_bytes());
+        f.push(2);
+        f.extend_from_slice(&body);
+        f
+    }
+}
+
+#[derive(Clone, Copy, Debug, PartialEq, Eq)]
+enum Shape {
+    Legacy,
+    Mp,
+    Mixed,
+}
+const SHAPES: [Shape; 3] = [Shape::Legacy, Shape::Mp, Shape::Mixed];
+impl Shape {
+    fn name(self) -> &'static str {
+        match self {
+            Shape::Legacy => "legacy",
+            Shape::Mp => "mp",
+            Shape::Mixed => "mixed",
+        }
+    }
+}
+
+fn as_bytes(asn: u32, two_byte: bool) -> Vec<u8> {
+    if two_byte { (asn as u16).to_be_bytes().to_vec() } else { asn.to_be_bytes().to_vec() }
+}
+
+fn seg(t: u8, asns: &[u32], two_byte: bool) -> Vec<u8> {
+    let mut v = vec![t, asns.len() as u8];
+    for a in asns {
+        v.extend_from_slice(&as_bytes(*a, two_byte));
+    }
+    v
+}
+
+fn mk_body(name: &str, idx: usize) -> Vec<u8> {
+    mkmsg::attr_kinds()
+        .into_iter()
+        .find(|(n, _)| *n == name)
+        .and_then(|(_, v)| v.get(idx).and_then(|a| a.binary().cloned()))
+        .unwrap_or_default()
+}
+
+const WIDE: u32 = 4_200_000_000;
+const AS_TRANS: u32 = 23456;
+
+/// All attribute kinds, valid, for a session of the given AS width; ascending
+/// type code.  (RFC section numbers: 4271 5.1.x, 1997, 4456, 4760, 4360, 6793,
+/// 9012, 7311, 9552, 8092, 8669.)
+fn all_items(two_byte: bool) -> Vec<Item> {
+    let it = |name, flags, code, value: Vec<u8>, alt: Vec<u8>| Item { name, flags, code, ext: false, value, alt, len_raw: None };
+    let second_as = if two_byte { AS_TRANS } else { WIDE };
+    let mut agg = as_bytes(second_as, two_byte);
+    agg.extend_from_slice(&[192, 0, 2, 2]);
+    let mut agg_alt = as_bytes(65009, two_byte);
+    agg_alt.extend_from_slice(&[192, 0, 2, 99]);
+    let nh6: std::net::Ipv6Addr = "2001:db8::1".parse().unwrap();
+    let mut mp_reach = vec![0, 2, 1, 16];
+    mp_reach.extend_from_slice(&nh6.octets());
+    mp_reach.push(0);
+    mp_reach.extend_from_slice(&[0x30, 0x20, 0x01, 0x0d, 0xb8, 0x00, 0x01]);
+    mp_reach.extend_from_slice(&[0x40, 0x20, 0x01, 0x0d, 0xb8, 0x00, 0x02, 0x00, 0x00]);
+    let mut mp_reach_alt = vec![0, 2, 1, 16];
+    mp_reach_alt.extend_from_slice(&nh6.octets());
+    mp_reach_alt.push(0);
+    mp_reach_alt.extend_from_slice(&[0x30, 0x20, 0x01, 0x0d, 0xb8, 0x00, 0xaa]);
+    let mp_unreach = vec![0, 2, 1, 0x30, 0x20, 0x01, 0x0d, 0xb8, 0x00, 0x09];
+    let mp_unreach_alt = vec![0, 2, 1, 0x30, 0x20, 0x01, 0x0d, 0xb8, 0x00, 0xbb];
+    let mut as4_agg = WIDE.to_be_bytes().to_vec();
+    as4_agg.extend_from_slice(&[192, 0, 2, 2]);
+    let mut as4_agg_alt = (WIDE + 1).to_be_bytes().to_vec();
+    as4_agg_alt.extend_from_slice(&[192, 0, 2, 99]);
+    let mut large = it(
+        "large_community",
+        0xc0,
+        32,
+        [65001u32, 1, 2, 65001, 3, 4].iter().flat_map(|v| v.to_be_bytes()).collect(),
+        [65001u32, 9, 9].iter().flat_map(|v| v.to_be_bytes()).collect(),
+    );
+    large.ext = true; // legal: extended length with a short body (RFC 4271 4.3)
+    vec![
+        it("origin", 0x40, 1, vec![0], vec![2]),
+        it("as_path", 0x40, 2, seg(2, &[65001, second_as], two_byte), seg(2, &[64999], two_byte)),
+        it("next_hop", 0x40, 3, vec![192, 0, 2, 1], vec![192, 0, 2, 99]),
+        it("med", 0x80, 4, vec![0, 0, 0, 100], vec![0, 0, 0, 7]),
+        it("local_pref", 0x40, 5, vec![0, 0, 0, 200], vec![0, 0, 0, 9]),
+        it("atomic_aggregate", 0x40, 6, vec![], vec![]),
+        it("aggregator", 0xc0, 7, agg, agg_alt),
+        it("community", 0xc0, 8, vec![0xfd, 0xe9, 0, 100, 0xfd, 0xe9, 0, 200], vec![0xfd, 0xe9, 0xff, 0xff]),
+        it("originator_id", 0x80, 9, vec![192, 0, 2, 9], vec![10, 0, 0, 1]),
+        it("cluster_list", 0x80, 10, vec![192, 0, 2, 10, 10, 10, 10, 10], vec![1, 1, 1, 1]),
+        it("mp_reach", 0x80, 14, mp_reach, mp_reach_alt),
+        it("mp_unreach", 0x80, 15, mp_unreach, mp_unreach_alt),
+        it(
+            "ext_community",
+            0xc0,
+            16,
+            vec![0x00, 0x02, 0xfd, 0xe9, 0, 0, 0, 100, 0x01, 0x02, 192, 0, 2, 1, 0, 7],
+            vec![0x00, 0x02, 0xfd, 0xe9, 0, 0, 0, 99],
+        ),
+        it("as4_path", 0xc0, 17, seg(2, &[65001, WIDE], false), seg(2, &[64998], false)),
+        it("as4_aggregator", 0xc0, 18, as4_agg, as4_agg_alt),
+        it("tunnel_encap", 0xc0, 23, mk_body("tunnel_encap", 0), mk_body("tunnel_encap", 1)),
+        it("aigp", 0x80, 26, vec![1, 0, 11, 0, 0, 0, 0, 0, 0, 0, 100], vec![1, 0, 11, 0, 0, 0, 0, 0, 0, 0, 7]),
+        it("ls", 0x80, 29, mk_body("ls", 2), mk_body("ls", 0)),
+        large,
+        it("prefix_sid", 0xc0, 40, mk_body("prefix_sid", 0), mk_body("prefix_sid", 1)),
+        it("unknown_transitive", 0xc0, mkmsg::CODE_UNKNOWN_TRANSITIVE, vec![1, 2, 3], vec![9]),
+        it("unknown_nontransitive", 0x80, mkmsg::CODE_UNKNOWN_NONTRANSITIVE, vec![9, 9], vec![7]),
+    ]
+}
+
+fn base_msg(shape: Shape, reversed: bool, two_byte: bool) -> Msg {
+    let mut items: Vec<Item> = all_items(two_byte)
+        .into_iter()
+        .filter(|i| match shape {
+            Shape::Legacy => i.code != 14 && i.code != 15,
+            Shape::Mp => i.code != 3,
+            Shape::Mixed => true,
+        })
+        .collect();
+    if reversed {
+        items.reverse();
+    }
+    let legacy = shape != Shape::Mp;
+    Msg {
+        // 10.9.0.0/16, 10.9.1.0/24
+        withdrawn: if legacy { vec![16, 10, 9, 24, 10, 9, 1] } else { vec![] },
+        items,
+        // 192.0.2.0/24, 198.51.100.128/25, 10.0.0.0/8
+        nlri: if legacy { vec![24, 192, 0, 2, 25, 198, 51, 100, 128, 8, 10] } else { vec![] },
+        wlen_raw: None,
+        cut: None,
+        tal_raw: None,
+    }
+}
+
+fn attr_name(code: u8) -> String {
+    match code {
+        1 => "origin".into(),
+        2 => "as_path".into(),
+        3 => "next_hop".into(),
+        4 => "med".into(),
+        5 => "local_pref".into(),
+        6 => "atomic_aggregate".into(),
+        7 => "aggregator".into(),
+        8 => "community".into(),
+        9 => "originator_id".into(),
+        10 => "cluster_list".into(),
+        14 => "mp_reach".into(),
+        15 => "mp_unreach".into(),
+        16 => "ext_community".into(),
+        17 => "as4_path".into(),
+        18 => "as4_aggregator".into(),
+        23 => "tunnel_encap".into(),
+        26 => "aigp".into(),
+        29 => "ls".into(),
+        32 => "large_community".into(),
+        40 => "prefix_sid".into(),
+        c if c == mkmsg::CODE_UNKNOWN_TRANSITIVE => "unknown_transitive".into(),
+        c if c == mkmsg::CODE_UNKNOWN_NONTRANSITIVE => "unknown_nontransitive".into(),
+        c => format!("code{c}"),
+    }
+}
+
+// ===========================================================================
+// Corruption menu
+// ===========================================================================
+
+#[derive(Clone, Copy, Debug, PartialEq, Eq)]
+enum Off {
+    /// at the attribute boundary in front of the item
+    Before,
+    /// after the flags byte
+    P1,
+    /// after the type byte
+    P2,
+    /// after the header (value missing)
+    Hdr,
+    /// one byte into the value
+    Hdr1,
+}
+impl Off {
+    fn name(self) -> &'static str {
+        match self {
+            Off::Before => "before",
+            Off::P1 => "flags|",
+            Off::P2 => "type|",
+            Off::Hdr => "hdr|",
+            Off::Hdr1 => "hdr+1|",
+        }
+    }
+}
+
+#[derive(Clone, Copy, Debug, PartialEq, Eq)]
+enum TalP {
+    One,
+    AllNlri,
+    PastEnd,
+}
+
+#[derive(Clone, Debug, PartialEq)]
+enum Op {
+    /// length field += d, value untouched (framing of the rest shifts)
+    LenRaw(i32),
+    LenRawZero,
+    /// value resized by d (truncated / zero byte appended), length consistent
+    LenCons(i32),
+    LenConsZero,
+    Flag(u8),
+    Value(Vec<u8>),
+    /// a second copy with a different valid value appended at the end of the block
+    DupDiff,
+    /// an identical copy right behind the original
+    DupAdj,
+    Omit,
+    /// unknown code 99 with well-known flags (0x40), at the start / end of the block
+    AddUnkWk(bool),
+    /// bytes of the block removed from this position, total attribute length consistent
+    Cut(&'static str, Off),
+    /// total attribute length shortened to this position, bytes left in place (they become NLRI)
+    TalShort(&'static str, Off),
+    TalPlus(TalP),
+    Wlen(i32),
+}
+
+#[derive(Clone, Debug)]
+struct Corr {
+    /// item name or "block"
+    target: &'static str,
+    id: String,
+    op: Op,
+}
+
+fn pos_in(msg: &Msg, name: &str, off: Off) -> Option<usize> {
+    let (o, it) = msg.offset_of(name)?;
+    let total = it.bytes().len();
+    let p = match off {
+        Off::Before => 0,
+        Off::P1 => 1,
+        Off::P2 => 2,
+        Off::Hdr => it.hdr_len(),
+        Off::Hdr1 => it.hdr_len() + 1,
+    };
+    // a position at or behind the end of the item is the next boundary: not "mid-attribute"
+    if off != Off::Before && p >= total {
+        return None;
+    }
+    Some(o + p)
+}
+
+/// Apply one corruption; false = not applicable to this message.
+fn apply(msg: &mut Msg, c: &Corr) -> bool {
+    let idx = msg.items.iter().position(|i| i.name == c.target);
+    match &c.op {
+        Op::LenRaw(d) => {
+            let Some(i) = idx else { return false };
+            let l = msg.items[i].value.len() as i32 + d;
+            if l < 0 || (!msg.items[i].ext && l > 255) {
+                return false;
+            }
+            msg.items[i].len_raw = Some(l as usize);
+        }
+        Op::LenRawZero => {
+            let Some(i) = idx else { return false };
+            if msg.items[i].value.is_empty() {
+                return false;
+            }
+            msg.items[i].len_raw = Some(0);
+        }
+        Op::LenCons(d) => {
+            let Some(i) = idx else { return false };
+            let v = &mut msg.items[i].value;
+            if *d < 0 {
+                if v.is_empty() {
+                    return false;
+                }
+                v.pop();
+            } else {
+                v.push(0);
+            }
+        }
+        Op::LenConsZero => {
+            let Some(i) = idx else { return false };
+            if msg.items[i].value.is_empty() {
+                return false;
+            }
+            msg.items[i].value.clear();
+        }
+        Op::Flag(b) => {
+            let Some(i) = idx else { return false };
+            msg.items[i].flags ^= b;
+        }
+        Op::Value(v) => {
+            let Some(i) = idx else { return false };
+            if msg.items[i].value == *v {
+                return false;
+            }
+            msg.items[i].value = v.clone();
+        }
+        Op::DupDiff => {
+            let Some(i) = idx else { return false };
+            let mut d = msg.items[i].clone();
+            d.value = d.alt.clone();
+            d.name = "(dup)";
+            d.len_raw = None;
+            msg.items.push(d);
+        }
+        Op::DupAdj => {
+            let Some(i) = idx else { return false };
+            let mut d = msg.items[i].clone();
+            d.name = "(dup)";
+            msg.items.insert(i + 1, d);
+        }
+        Op::Omit => {
+            let Some(i) = idx else { return false };
+            msg.items.remove(i);
+        }
+        Op::AddUnkWk(first) => {
+            let it = Item { name: "(unknown-wk)", flags: 0x40, code: 99, ext: false, value: vec![7], alt: vec![], len_raw: None };
+            if *first {
+                msg.items.insert(0, it);
+            } else {
+                msg.items.push(it);
+            }
+        }
+        Op::Cut(name, off) => {
+            let Some(p) = pos_in(msg, name, *off) else { return false };
+            if msg.cut.is_some() || msg.tal_raw.is_some() {
+                return false;
+            }
+            msg.cut = Some(p);
+        }
+        Op::TalShort(name, off) => {
+            let Some(p) = pos_in(msg, name, *off) else { return false };
+            if msg.cut.is_some() || msg.tal_raw.is_some() {
+                return false;
+            }
+            msg.tal_raw = Some(p);
+        }
+        Op::TalPlus(k) => {
+            if msg.cut.is_some() || msg.tal_raw.is_some() {
+                return false;
+            }
+            let bl = msg.block().len();
+            let d = match k {
+                TalP::One => 1,
+                TalP::AllNlri => msg.nlri.len(),
+                TalP::PastEnd => msg.nlri.len() + 1,
+            };
+            if *k == TalP::AllNlri && d <= 1 {
+                return false;
+            }
+            msg.tal_raw = Some(bl + d);
+        }
+        Op::Wlen(d) => {
+            let l = msg.withdrawn.len() as i32 + d;
+            if l < 0 {
+                return false;
+            }
+            msg.wlen_raw = Some(l as usize);
+        }
+    }
+    true
+}
+
+/// The corruption menu of a base message (ids are stable names).
+fn menu(base: &Msg, two_byte: bool) -> Vec<Corr> {
+    let mut m: Vec<Corr> = Vec::new();
+    let w = if two_byte { 2usize } else { 4 };
+    for it in &base.items {
+        let t = it.name;
+        let mut add = |id: &str, op: Op| m.push(Corr { target: t, id: format!("{t}:{id}"), op });
+        add("len-1raw", Op::LenRaw(-1));
+        add("len+1raw", Op::LenRaw(1));
+        add("len=0raw", Op::LenRawZero);
+        add("len-1", Op::LenCons(-1));
+        add("len+1", Op::LenCons(1));
+        add("len=0", Op::LenConsZero);
+        add("flags^optional", Op::Flag(0x80));
+        add("flags^transitive", Op::Flag(0x40));
+        add("flags^partial", Op::Flag(0x20));
+        add("dup", Op::DupDiff);
+        add("dup-adjacent", Op::DupAdj);
+        if matches!(it.code, 1 | 2 | 3) {
+            add("omitted", Op::Omit);
+        }
+        let v = &it.value;
+        let with = |f: &dyn Fn(&mut Vec<u8>)| {
+            let mut x = v.clone();
+            f(&mut x);
+            x
+        };
+        match it.code {
+            1 => {
+                add("value=3", Op::Value(vec![3]));
+                add("value=255", Op::Value(vec![255]));
+            }
+            2 | 17 => {
+                add("segtype=0", Op::Value(with(&|x| x[0] = 0)));
+                add("segtype=5", Op::Value(with(&|x| x[0] = 5)));
+                add("count+1", Op::Value(with(&|x| x[1] += 1)));
+                add("count-1", Op::Value(with(&|x| x[1] -= 1)));
+                add("count=0", Op::Value(with(&|x| x[1] = 0)));
+                add("zero-length-segment", Op::Value(with(&|x| x.extend_from_slice(&[2, 0]))));
+                add("truncated-segment", Op::Value(with(&|x| x.extend_from_slice(&[2, 1, 0xfd]))));
+                if it.code == 2 {
+                    // a segment whose count needs one more AS than the attribute holds
+                    let ww = w;
+                    add("segment-overruns-by-half-as", Op::Value(with(&|x| {
+                        x.extend_from_slice(&[2, 1]);
+                        x.extend(std::iter::repeat(0xfd).take(ww - 1));
+                    })));
+                }
+            }
+            3 => {
+                add("value=0.0.0.0", Op::Value(vec![0, 0, 0, 0]));
+                let nh6: std::net::Ipv6Addr = "2001:db8::1".parse().unwrap();
+                add("len=16", Op::Value(nh6.octets().to_vec()));
+                let mut v32 = nh6.octets().to_vec();
+                v32.extend_from_slice(&"fe80::1".parse::<std::net::Ipv6Addr>().unwrap().octets());
+                add("len=32", Op::Value(v32));
+            }
+            7 => {
+                // the form of the other AS width (RFC 7606 7.7: 6 without, 8 with 4-octet AS)
+                let mut o = if two_byte { WIDE.to_be_bytes().to_vec() } else { 65009u16.to_be_bytes().to_vec() };
+                o.extend_from_slice(&[192, 0, 2, 2]);
+                add(if two_byte { "len=8-on-2byte-session" } else { "len=6-on-4byte-session" }, Op::Value(o));
+            }
+            8 => add("len=6", Op::Value(v[..6].to_vec())),
+            10 => add("len=6", Op::Value(v[..6].to_vec())),
+            16 => add("len=12", Op::Value(v[..12].to_vec())),
+            32 => add("len=16", Op::Value(v[..16].to_vec())),
+            26 => {
+                add("tlvlen=2", Op::Value(with(&|x| x[2] = 2)));
+                add("tlvlen=12", Op::Value(with(&|x| x[2] = 12)));
+                add("tlvlen=10", Op::Value(with(&|x| {
+                    x[2] = 10;
+                    x.pop();
+                })));
+                add("tlvlen=0", Op::Value(with(&|x| x[2] = 0)));
+            }
+            14 => {
+                add("afi=99", Op::Value(with(&|x| x[1] = 99)));
+                add("safi=99", Op::Value(with(&|x| x[2] = 99)));
+                add("nhlen=0", Op::Value(with(&|x| x[3] = 0)));
+                add("nhlen=17", Op::Value(with(&|x| x[3] = 17)));
+                add("nhlen=32", Op::Value(with(&|x| x[3] = 32)));
+                add("nhlen=255", Op::Value(with(&|x| x[3] = 255)));
+                add("prefixlen=129", Op::Value(with(&|x| x[21] = 129)));
+                add("body=4bytes", Op::Value(v[..4].to_vec()));
+            }
+            15 => {
+                add("afi=99", Op::Value(with(&|x| x[1] = 99)));
+                add("prefixlen=129", Op::Value(with(&|x| x[3] = 129)));
+                add("body=2bytes", Op::Value(v[..2].to_vec()));
+            }
+            _ => {}
+        }
+    }
+    let mut addb = |id: String, op: Op| m.push(Corr { target: "block", id: format!("block:{id}"), op });
+    addb("unknown-wellknown-first".into(), Op::AddUnkWk(true));
+    addb("unknown-wellknown-last".into(), Op::AddUnkWk(false));
+    for it in &base.items {
+        for off in [Off::Before, Off::P1, Off::P2, Off::Hdr, Off::Hdr1] {
+            addb(format!("cut@{}{}", off.name(), it.name), Op::Cut(it.name, off));
+            addb(format!("totallen@{}{}", off.name(), it.name), Op::TalShort(it.name, off));
+        }
+    }
+    addb("totallen+1".into(), Op::TalPlus(TalP::One));
+    addb("totallen+nlri".into(), Op::TalPlus(TalP::AllNlri));
+    addb("totallen-past-end".into(), Op::TalPlus(TalP::PastEnd));
+    addb("withdrawnlen-1".into(), Op::Wlen(-1));
+    addb("withdrawnlen+1".into(), Op::Wlen(1));
+    addb("withdrawnlen+4000".into(), Op::Wlen(4000));
+    // keep only entries that apply to the base and change its bytes
+    let base_bytes = base.frame();
+    m.retain(|c| {
+        let mut x = base.clone();
+        apply(&mut x, c) && x.frame() != base_bytes
+    });
+    m
+}
+
+/// Build the corrupted frame: attribute-level operations first (menu order),
+/// then the block-level one, so that block positions are taken by name on the
+/// already modified attribute list.
+fn build(base: &Msg, corrs: &[&Corr]) -> Option<Vec<u8>> {
+    let mut x = base.clone();
+    for c in corrs.iter().filter(|c| c.target != "block") {
+        if !apply(&mut x, c) {
+            return None;
+        }
+    }
+    for c in corrs.iter().filter(|c| c.target == "block") {
+        if !apply(&mut x, c) {
+            return None;
+        }
+    }
+    let f = x.frame();
+    if f.len() > 4096 { None } else { Some(f) }
+}
+
+// ===========================================================================
+// Reference receiver (RFC 4271 4.3 / 6.3, RFC 7606 3-7, RFC 4760, RFC 6793,
+// RFC 7311, RFC 8092).  Boring linear scans over the final bytes.
+// ===========================================================================
+
+#[derive(Clone, Debug, PartialEq, Eq, PartialOrd, Ord, Hash)]
+pub struct Pfx {
+    pub afi: u16,
+    pub safi: u8,
+    pub len: u8,
+    /// address bytes, bits beyond `len` cleared
+    pub addr: [u8; 16],
+}
+
+impl Pfx {
+    fn new(afi: u16, safi: u8, len: u8, bytes: &[u8]) -> Pfx {
+        let mut addr = [0u8; 16];
+        for (i, b) in bytes.iter().take(16).enumerate() {
+            addr[i] = *b;
+        }
+        let full = (len / 8) as usize;
+        let rem = len % 8;
+        for (i, a) in addr.iter_mut().enumerate() {
+            if i > full || (i == full && rem == 0) {
+                *a = 0;
+            } else if i == full {
+                *a &= 0xffu8 << (8 - rem);
+            }
+        }
+        Pfx { afi, safi, len, addr }
+    }
+    pub fn show(&self) -> String {
+        if self.afi == 1 {
+            format!("{}.{}.{}.{}/{}", self.addr[0], self.addr[1], self.addr[2], self.addr[3], self.len)
+        } else {
+            format!("{}/{}", std::net::Ipv6Addr::from(self.addr), self.len)
+        }
+    }
+}
+
+#[derive(Clone, Debug, PartialEq, Eq)]
+pub enum Repr {
+    U32(u32),
+    Bytes(Vec<u8>),
+}
+
+#[derive(Clone, Debug)]
+pub struct Fault {
+    /// attribute type code; 0 = the attribute block itself (RFC 7606 4)
+    pub code: u8,
+    /// the fault is in the framing of the attribute block, not in attribute `code`
+    pub block: bool,
+    /// stable class of the fault ("flags", "length", "length=0", "value", "segment-...",
+    /// "tlv", "unrecognised-well-known", "header-truncated-<n>-left", "length-overruns-<n>-left")
+    pub class: String,
+    pub why: String,
+}
+
+impl Fault {
+    /// "<attribute>:<fault class>", the shape class used in signatures
+    pub fn name(&self) -> String {
+        if self.block { format!("block:{}", self.class) } else { format!("{}:{}", attr_name(self.code), self.class) }
+    }
+}
+
+#[derive(Clone, Debug)]
+pub struct DupInfo {
+    pub code: u8,
+    pub first: Repr,
+    pub second: Repr,
+}
+
+/// What a conforming receiver may do with the frame.
+#[derive(Clone, Debug, Default)]
+pub struct Expect {
+    /// reasons why the NLRI cannot be located / parsed; non-empty => `reset_ok && relaxed`
+    pub structural: Vec<String>,
+    /// a NOTIFICATION is an acceptable outcome
+    pub reset_ok: bool,
+    /// only the clauses "believed", "ibgp-only", "panic" are evaluated
+    pub relaxed: bool,
+    /// faults that require treat-as-withdraw
+    pub hard: Vec<Fault>,
+    /// faults for which "kept without that attribute" is acceptable as well
+    pub disc: Vec<Fault>,
+    /// mandatory attributes that are absent although prefixes are announced
+    pub missing: Vec<u8>,
+    pub dups: Vec<DupInfo>,
+    pub must_withdraw: bool,
+    /// prefixes the UPDATE announces (legacy NLRI + MP_REACH_NLRI), as located by the reference
+    pub announced: Vec<Pfx>,
+    /// prefixes the UPDATE withdraws (Withdrawn Routes + MP_UNREACH_NLRI)
+    pub withdrawn: Vec<Pfx>,
+    /// legacy withdrawn prefixes only (subset of `withdrawn`)
+    pub withdrawn_legacy: Vec<Pfx>,
+    /// AS_PATH in 4-octet form, set when AS4_PATH is faulty (must not be merged in)
+    pub plain_as_path: Option<Vec<u8>>,
+    /// AGGREGATOR in 8-byte form, set when AS4_AGGREGATOR is faulty
+    pub plain_aggregator: Option<Vec<u8>>,
+    pub has_legacy_nlri: bool,
+}
+
+impl Expect {
+    pub fn faulty_codes(&self) -> Vec<u8> {
+        let mut v: Vec<u8> = self.hard.iter().chain(self.disc.iter()).filter(|f| !f.block).map(|f| f.code).collect();
+        v.sort();
+        v.dedup();
+        v
+    }
+    pub fn class(&self) -> &'static str {
+        if !self.structural.is_empty() {
+            "structural"
+        } else if self.hard.iter().any(|f| f.block) {
+            "block-error"
+        } else if !self.hard.is_empty() {
+            "hard"
+        } else if !self.missing.is_empty() {
+            "missing-mandatory"
+        } else if !self.disc.is_empty() {
+            "discardable"
+        } else if !self.dups.is_empty() {
+            "duplicate"
+        } else {
+            "valid"
+        }
+    }
+    pub fn nontrivial(&self) -> bool {
+        self.class() != "valid"
+    }
+}
+
+/// RFC 4271 4.3: <length(1), prefix(ceil(length/8))>*
+fn ref_prefixes(afi: u16, safi: u8, b: &[u8]) -> Result<Vec<Pfx>, String> {
+    let max = if afi == 1 { 32 } else { 128 };
+    let mut out = Vec::new();
+    let mut p = 0usize;
+    while p < b.len() {
+        let l = b[p];
+        if l as usize > max {
+            return Err(format!("prefix length {l} > {max}"));
+        }
+        let n = (l as usize).div_ceil(8);
+        if p + 1 + n > b.len() {
+            return Err(format!("prefix of length {l} truncated"));
+        }
+        out.push(Pfx::new(afi, safi, l, &b[p + 1..p + 1 + n]));
+        p += 1 + n;
+    }
+    Ok(out)
+}
+
+/// Specified Optional/Transitive bits per type code.
+fn ref_flags(code: u8) -> Option<u8> {
+    match code {
+        1 | 2 | 3 | 5 | 6 => Some(0x40),                 // RFC 4271 5: well-known
+        4 | 9 | 10 | 14 | 15 | 26 | 29 => Some(0x80),    // RFC 4271 5.1.4, 4456 8, 4760 3/4, 7311 3, 9552 5.3
+        7 | 8 | 16 | 17 | 18 | 23 | 32 | 40 => Some(0xc0), // RFC 4271 5.1.7, 1997, 4360, 6793, 9012, 8092, 8669
+        _ => None,
+    }
+}
+
+/// AS_PATH-like value: segments <type(1), count(1), count x AS(w)>.
+/// RFC 7606 7.2: malformed on unrecognised segment type, segment overrun,
+/// fewer than 2 bytes left, or a segment length of zero.  Err = (class, why).
+fn ref_as_segments(v: &[u8], w: usize) -> Result<(), (&'static str, String)> {
+    let mut p = 0usize;
+    while p < v.len() {
+        if p + 2 > v.len() {
+            return Err(("segment-header-truncated", "one byte left where a segment header is needed".into()));
+        }
+        let t = v[p];
+        let n = v[p + 1] as usize;
+        if !(1..=4).contains(&t) {
+            return Err(("segment-type", format!("segment type {t}")));
+        }
+        if n == 0 {
+            return Err(("segment-length-0", "segment length 0".into()));
+        }
+        if p + 2 + n * w > v.len() {
+            return Err(("segment-overrun", format!("segment of {n} AS overruns the attribute")));
+        }
+        p += 2 + n * w;
+    }
+    Ok(())
+}
+
+fn widen_as_path(v: &[u8]) -> Vec<u8> {
+    let mut o = Vec::new();
+    let mut p = 0usize;
+    while p + 2 <= v.len() {
+        let n = v[p + 1] as usize;
+        o.push(v[p]);
+        o.push(v[p + 1]);
+        for i in 0..n {
+            let s = p + 2 + 2 * i;
+            if s + 2 <= v.len() {
+                o.extend_from_slice(&[0, 0, v[s], v[s + 1]]);
+            }
+        }
+        p += 2 + 2 * n;
+    }
+    o
+}
+
+/// Why the value of a known attribute is malformed: (class, why); None = fine / not judged.
+fn ref_value_fault(code: u8, v: &[u8], two_byte: bool) -> Option<(&'static str, String)> {
+    let l = v.len();
+    let fixed = |n: usize| if l != n { Some(("length", format!("length {l}, must be {n}"))) } else { None };
+    let multiple = |n: usize| {
+        if l == 0 {
+            Some(("length=0", format!("length 0, must be a non-zero multiple of {n}")))
+        } else if l % n != 0 {
+            Some(("length", format!("length {l}, must be a non-zero multiple of {n}")))
+        } else {
+            None
+        }
+    };
+    match code {
+        1 => fixed(1).or_else(|| if v[0] > 2 { Some(("value", format!("ORIGIN value {}", v[0]))) } else { None }), // RFC 7606 7.1
+        2 => ref_as_segments(v, if two_byte { 2 } else { 4 }).err(),                                               // 7.2
+        3 => fixed(4),                                                                                             // 7.3
+        4 | 5 | 9 => fixed(4),                                                                                     // 7.4 7.5 7.9
+        6 => fixed(0),                                                                                             // 7.6
+        7 => fixed(if two_byte { 6 } else { 8 }),                                                                  // 7.7
+        8 | 10 => multiple(4),                                                                                     // 7.8 7.10
+        16 => multiple(8),                                                                                         // 7.14
+        32 => multiple(12),                                                                                        // RFC 8092 5
+        17 => {
+            // RFC 6793 6
+            if l < 6 || l % 2 != 0 { Some(("length", format!("length {l}"))) } else { ref_as_segments(v, 4).err() }
+        }
+        18 => fixed(8),
+        26 => {
+            // RFC 7311 3: TLVs <type(1), length(2, incl. header), value>; AIGP TLV (1) has length 11
+            let mut p = 0usize;
+            while p < l {
+                if p + 3 > l {
+                    return Some(("tlv", "TLV header truncated".into()));
+                }
+                let tl = u16::from_be_bytes([v[p + 1], v[p + 2]]) as usize;
+                if tl < 3 {
+                    return Some(("tlv", format!("TLV length {tl} < 3")));
+                }
+                if p + tl > l {
+                    return Some(("tlv", format!("TLV length {tl} overruns the attribute")));
+                }
+                if v[p] == 1 && tl != 11 {
+                    return Some(("tlv", format!("AIGP TLV length {tl}, must be 11")));
+                }
+                p += tl;
+            }
+            None
+        }
+        _ => None, // 23, 29, 40: content not judged; 14, 15 handled by the caller
+    }
+}
+
+fn ref_repr(code: u8, v: &[u8], two_byte: bool) -> Repr {
+    match code {
+        1 if v.len() == 1 => Repr::U32(v[0] as u32),
+        4 | 5 | 9 if v.len() == 4 => Repr::U32(u32::from_be_bytes([v[0], v[1], v[2], v[3]])),
+        2 if two_byte => Repr::Bytes(widen_as_path(v)),
+        7 if v.len() == 6 => {
+            let mut o = vec![0, 0];
+            o.extend_from_slice(v);
+            Repr::Bytes(o)
+        }
+        _ => Repr::Bytes(v.to_vec()),
+    }
+}
+
+struct RefAttr<'a> {
+    flags: u8,
+    code: u8,
+    value: &'a [u8],
+}
+
+/// The session negotiated IPv4 unicast and IPv6 unicast, no ADD-PATH, no
+/// extended next hop, 4096-byte messages.
+pub fn reference(frame: &[u8], two_byte: bool, role: Role) -> Expect {
+    let mut e = Expect::default();
+    let external = role.external();
+    let structural = |e: &mut Expect, s: String| {
+        e.structural.push(s);
+        e.reset_ok = true;
+        e.relaxed = true;
+    };
+    if frame.len() < 23 {
+        structural(&mut e, "UPDATE shorter than 23 bytes".into());
+        return e;
+    }
+    let body = &frame[19..];
+    // RFC 7606 3 a/b (via RFC 4271 6.3): length fields must fit
+    let wlen = u16::from_be_bytes([body[0], body[1]]) as usize;
+    if 2 + wlen + 2 > body.len() {
+        structural(&mut e, format!("withdrawn routes length {wlen} does not fit"));
+        return e;
+    }
+    let tal = u16::from_be_bytes([body[2 + wlen], body[3 + wlen]]) as usize;
+    if 4 + wlen + tal > body.len() {
+        structural(&mut e, format!("total path attribute length {tal} does not fit"));
+        return e;
+    }
+    let block = &body[4 + wlen..4 + wlen + tal];
+    let nlri = &body[4 + wlen + tal..];
+    // RFC 7606 5.3: NLRI fields that cannot be parsed
+    match ref_prefixes(1, 1, &body[2..2 + wlen]) {
+        Ok(v) => {
+            e.withdrawn_legacy = v.clone();
+            e.withdrawn = v;
+        }
+        Err(s) => structural(&mut e, format!("withdrawn routes: {s}")),
+    }
+    match ref_prefixes(1, 1, nlri) {
+        Ok(v) => {
+            e.has_legacy_nlri = !v.is_empty();
+            e.announced = v;
+        }
+        Err(s) => structural(&mut e, format!("NLRI: {s}")),
+    }
+    // RFC 7606 4: walk the block, relying on the total attribute length
+    let mut attrs: Vec<RefAttr> = Vec::new();
+    let mut p = 0usize;
+    while p < block.len() {
+        let rem = block.len() - p;
+        if rem < 3 || (block[p] & 0x10 != 0 && rem < 4) {
+            e.hard.push(Fault { code: 0, block: true, class: format!("header-truncated-{rem}-left"), why: format!("{rem} byte(s) left in the block: not enough for an attribute header") });
+            e.reset_ok = true;
+            break;
+        }
+        let flags = block[p];
+        let code = block[p + 1];
+        let (hdr, alen) = if flags & 0x10 != 0 { (4, u16::from_be_bytes([block[p + 2], block[p + 3]]) as usize) } else { (3, block[p + 2] as usize) };
+        if hdr + alen > rem {
+            let left = rem - hdr;
+            e.hard.push(Fault {
+                code: 0,
+                block: true,
+                class: format!("length-overruns-{}-left", if left < 4 { left.to_string() } else { "n".into() }),
+                why: format!("attribute {} length {alen} overruns the block ({left} left)", attr_name(code)),
+            });
+            e.reset_ok = true;
+            break;
+        }
+        attrs.push(RefAttr { flags, code, value: &block[p + hdr..p + hdr + alen] });
+        p += hdr + alen;
+    }
+    // RFC 7606 3 g: duplicates
+    let mut first: BTreeMap<u8, usize> = BTreeMap::new();
+    for (i, a) in attrs.iter().enumerate() {
+        match first.get(&a.code) {
+            None => {
+                first.insert(a.code, i);
+            }
+            Some(&f) => {
+                if a.code == 14 || a.code == 15 {
+                    structural(&mut e, format!("{} appears more than once", attr_name(a.code)));
+                } else {
+                    e.dups.push(DupInfo {
+                        code: a.code,
+                        first: ref_repr(a.code, attrs[f].value, two_byte),
+                        second: ref_repr(a.code, a.value, two_byte),
+                    });
+                }
+            }
+        }
+    }
+    // per-attribute classification (first occurrences)
+    for (&code, &i) in &first {
+        let a = &attrs[i];
+        let v = a.value;
+        if code == 14 || code == 15 {
+            // locate the NLRI whatever the flags say
+            let mut ok = true;
+            if code == 14 {
+                // RFC 4760 3 / RFC 7606 7.11
+                if v.len() < 5 {
+                    structural(&mut e, format!("MP_REACH_NLRI of {} byte(s)", v.len()));
+                    ok = false;
+                } else {
+                    let (afi, safi, nhl) = (u16::from_be_bytes([v[0], v[1]]), v[2], v[3] as usize);
+                    let negotiated = matches!((afi, safi), (1, 1) | (2, 1));
+                    let nh_ok = if afi == 1 { nhl == 4 } else { nhl == 16 || nhl == 32 };
+                    if !negotiated {
+                        structural(&mut e, format!("MP_REACH_NLRI for un-negotiated family {afi}/{safi}"));
+                        ok = false;
+                    } else if !nh_ok || 4 + nhl + 1 > v.len() {
+                        structural(&mut e, format!("MP_REACH_NLRI next hop length {nhl}"));
+                        ok = false;
+                    } else {
+                        match ref_prefixes(afi, safi, &v[5 + nhl..]) {
+                            Ok(px) => e.announced.extend(px),
+                            Err(s) => {
+                                structural(&mut e, format!("MP_REACH_NLRI: {s}"));
+                                ok = false;
+                            }
+                        }
+                    }
+                }
+            } else if v.len() < 3 {
+                structural(&mut e, format!("MP_UNREACH_NLRI of {} byte(s)", v.len()));
+                ok = false;
+            } else {
+                let (afi, safi) = (u16::from_be_bytes([v[0], v[1]]), v[2]);
+                if !matches!((afi, safi), (1, 1) | (2, 1)) {
+                    structural(&mut e, format!("MP_UNREACH_NLRI for un-negotiated family {afi}/{safi}"));
+                    ok = false;
+                } else {
+                    match ref_prefixes(afi, safi, &v[3..]) {
+                        Ok(px) => e.withdrawn.extend(px),
+                        Err(s) => {
+                            structural(&mut e, format!("MP_UNREACH_NLRI: {s}"));
+                            ok = false;
+                        }
+                    }
+                }
+            }
+            if ok && (a.flags ^ 0x80) & 0xc0 != 0 {
+                // RFC 7606 3 c: treat-as-withdraw; a reset is tolerated for the MP attributes
+                e.reset_ok = true;
+                let f = Fault { code, block: false, class: "flags".into(), why: format!("flags {:#04x}, specified 0x80", a.flags) };
+                if code == 14 { e.hard.push(f) } else { e.disc.push(f) }
+            }
+            continue;
+        }
+        if code == 3 && !e.has_legacy_nlri {
+            continue; // RFC 4760 3: NEXT_HOP is ignored when there is no legacy NLRI
+        }
+        let fault: Option<(&'static str, String)> = match ref_flags(code) {
+            Some(spec) if (a.flags ^ spec) & 0xc0 != 0 => Some(("flags", format!("flags {:#04x}, specified {spec:#04x}", a.flags))),
+            Some(_) => ref_value_fault(code, v, two_byte),
+            // RFC 4271 6.3 / RFC 7606 3: unrecognised well-known
+            None if a.flags & 0x80 == 0 => Some(("unrecognised-well-known", "unrecognised well-known attribute".into())),
+            None => None,
+        };
+        let Some((class, why)) = fault else { continue };
+        let discardable = matches!(code, 4 | 9 | 10 | 26 | 29)   // optional non-transitive by code
+            || matches!(code, 17 | 18)                           // AS4_PATH / AS4_AGGREGATOR
+            || (ref_flags(code).is_some() && a.flags & 0xc0 == 0x80) // optional non-transitive on the wire
+            || matches!(code, 6 | 7)                             // RFC 7606 7.6 / 7.7: attribute discard
+            || (external && code == 5);                          // RFC 7606 7.5: ignored from external peers
+        let f = Fault { code, block: false, class: class.to_string(), why };
+        if discardable { e.disc.push(f) } else { e.hard.push(f) }
+    }
+    // AS4_* faulty: the plain AS_PATH / AGGREGATOR must be used (2-octet sessions)
+    if two_byte {
+        let single = |c: u8| attrs.iter().filter(|a| a.code == c).count() == 1;
+        let faulty = |c: u8| e.disc.iter().any(|f| f.code == c);
+        let fine = |c: u8| !e.hard.iter().chain(e.disc.iter()).any(|f| f.code == c);
+        if faulty(17) && single(2) && fine(2) {
+            e.plain_as_path = Some(widen_as_path(attrs[first[&2]].value));
+        }
+        if faulty(18) && single(7) && fine(7) {
+            if let Repr::Bytes(b) = ref_repr(7, attrs[first[&7]].value, true) {
+                e.plain_aggregator = Some(b);
+            }
+        }
+    }
+    // RFC 7606 3 d: missing well-known mandatory attributes
+    if !e.announced.is_empty() && !e.hard.iter().any(|f| f.block) {
+        for c in [1u8, 2] {
+            if !first.contains_key(&c) {
+                e.missing.push(c);
+            }
+        }
+        if e.has_legacy_nlri && !first.contains_key(&3) {
+            e.missing.push(3);
+        }
+    }
+    e.must_withdraw = !e.hard.is_empty() || !e.missing.is_empty();
+    e
+}
+
+// ===========================================================================
+// Observation of the subject and the oracle
+// ===========================================================================
+
+#[derive(Clone, Debug)]
+pub enum ObsMsg {
+    Reach { afi: u16, safi: u8, nexthop: Option<String>, pfx: Vec<Pfx>, attrs: Vec<(u8, Repr)> },
+    Unreach { afi: u16, safi: u8, pfx: Vec<Pfx> },
+    Other(String),
+}
+
+#[derive(Clone, Debug)]
+pub enum Obs {
+    Panic(String),
+    Reset { code: u8, subcode: u8, text: String },
+    Msgs(Vec<ObsMsg>),
+}
+
+impl Obs {
+    pub fn class(&self) -> &'static str {
+        match self {
+            Obs::Panic(_) => "panic",
+            Obs::Reset { .. } => "reset",
+            Obs::Msgs(m) => {
+                let r = m.iter().any(|x| matches!(x, ObsMsg::Reach { .. }));
+                let u = m.iter().any(|x| matches!(x, ObsMsg::Unreach { .. }));
+                match (r, u) {
+                    (true, true) => "reach+unreach",
+                    (true, false) => "reach",
+                    (false, true) => "unreach-only",
+                    (false, false) => "nothing",
+                }
+            }
+        }
+    }
+    pub fn show(&self) -> String {
+        match self {
+            Obs::Panic(p) => format!("PANIC {p}"),
+            Obs::Reset { code, subcode, text } => format!("NOTIFICATION {code}/{subcode} ({text})"),
+            Obs::Msgs(m) => {
+                let mut s = Vec::new();
+                for x in m {
+                    match x {
+                        ObsMsg::Reach { afi, safi, nexthop, pfx, attrs } => s.push(format!(
+                            "Reach {afi}/{safi} nh={} [{}] attrs={:?}",
+                            nexthop.clone().unwrap_or("-".into()),
+                            pfx.iter().map(|p| p.show()).collect::<Vec<_>>().join(" "),
+                            attrs.iter().map(|a| a.0).collect::<Vec<_>>()
+                        )),
+                        ObsMsg::Unreach { afi, safi, pfx } => {
+                            s.push(format!("Unreach {afi}/{safi} [{}]", pfx.iter().map(|p| p.show()).collect::<Vec<_>>().join(" ")))
+                        }
+                        ObsMsg::Other(o) => s.push(o.clone()),
+                    }
+                }
+                if s.is_empty() { "no message".into() } else { s.join("; ") }
+            }
+        }
+    }
+}
+
+fn pfx_of(family: Family, n: &Nlri) -> Pfx {
+    match n {
+        Nlri::V4(p) => Pfx::new(family.afi(), family.safi(), p.mask, &p.addr.octets()),
+        Nlri::V6(p) => Pfx::new(family.afi(), family.safi(), p.mask, &p.addr.octets()),
+        _ => Pfx { afi: family.afi(), safi: family.safi(), len: 255, addr: [0xee; 16] },
+    }
+}
+
+fn repr_of(a: &Attribute) -> Repr {
+    match a.value() {
+        Some(v) => Repr::U32(v),
+        None => Repr::Bytes(a.binary().cloned().unwrap_or_default()),
+    }
+}
+
+/// Crate-independent view of the `Message`s `validate_message` returned.
+pub fn observe_messages(msgs: &[Message]) -> Vec<ObsMsg> {
+    msgs.iter()
+        .map(|m| match m {
+            Message::Update(Update::Reach { family, entries, nexthop, attr }) => ObsMsg::Reach {
+                afi: family.afi(),
+                safi: family.safi(),
+                nexthop: nexthop.as_ref().map(|n| format!("{n:?}")),
+                pfx: entries.iter().map(|e| pfx_of(*family, &e.nlri)).collect(),
+                attrs: attr.iter().map(|a| (a.code(), repr_of(a))).collect(),
+            },
+            Message::Update(Update::Unreach { family, entries }) => {
+                ObsMsg::Unreach { afi: family.afi(), safi: family.safi(), pfx: entries.iter().map(|e| pfx_of(*family, &e.nlri)).collect() }
+            }
+            Message::Update(_) => ObsMsg::Other("EndOfRib".into()),
+            Message::Open(_) => ObsMsg::Other("Open".into()),
+            Message::Notification(_) => ObsMsg::Other("Notification".into()),
+            Message::Keepalive => ObsMsg::Other("Keepalive".into()),
+            Message::RouteRefresh { .. } => ObsMsg::Other("RouteRefresh".into()),
+        })
+        .collect()
+}
+
+pub fn codec_desc(two_byte: bool) -> PairDesc {
+    let mut d = PairDesc::DEFAULT;
+    d.l_as4 = !two_byte;
+    d.r_as4 = !two_byte;
+    d
+}
+
+/// The receive path of the daemon's session loop (event/mod.rs): `try_parse`
+/// on the stream buffer, then `validate_message(parsed, is_ebgp)`.
+pub fn run_subject(frame: &[u8], two_byte: bool, is_ebgp: bool) -> Obs {
+    let (_, mut rx) = mkmsg::pair_from_desc(Family::IPV6, &codec_desc(two_byte));
+    let r = catch(|| {
+        let mut buf = bytes::BytesMut::from(frame);
+        match rx.try_parse(&mut buf) {
+            Err(n) => Err(n),
+            Ok(None) => Ok(None),
+            Ok(Some(parsed)) => pbgp::validate_message(parsed, is_ebgp).map(|it| Some(it.collect::<Vec<Message>>())),
+        }
+    });
+    match r {
+        Err(p) => Obs::Panic(p),
+        Ok(Err(n)) => Obs::Reset { code: n.notification_code(), subcode: n.notification_subcode(), text: format!("{n}") },
+        Ok(Ok(None)) => Obs::Panic("try_parse returned Ok(None) on a complete frame @ harness:0".into()),
+        Ok(Ok(Some(m))) => Obs::Msgs(observe_messages(&m)),
+    }
+}
+
+#[derive(Clone, Debug, PartialEq, Eq, PartialOrd, Ord)]
+pub struct Finding {
+    pub clause: &'static str,
+    /// faults ("<attr>:<class>", see `Fault::name`) one of which is responsible;
+    /// empty for clauses that do not name a fault
+    pub faults: Vec<String>,
+    /// withdrawal-lost: legacy|mp; not-treated-as-withdraw: ""|silently-ignored;
+    /// missing-mandatory-accepted: attribute; ibgp-only: role:attr; panic: file:line
+    pub detail: String,
+    pub what: String,
+}
+
+/// The oracle: compare what the subject did with what the reference allows.
+pub fn judge(exp: &Expect, role: Role, obs: &Obs) -> Vec<Finding> {
+    let mut out = Vec::new();
+    let all_faults = |exp: &Expect| -> Vec<String> {
+        let mut v: Vec<String> = exp.hard.iter().chain(exp.disc.iter()).map(|f| f.name()).collect();
+        v.extend(exp.missing.iter().map(|c| format!("{}:missing", attr_name(*c))));
+        v.extend(exp.dups.iter().map(|d| format!("{}:duplicate", attr_name(d.code))));
+        v.sort();
+        v.dedup();
+        v
+    };
+    let msgs = match obs {
+        Obs::Panic(p) => {
+            let loc = p.rsplit(" @ ").next().unwrap_or("");
+            let loc = loc.rsplit('/').next().unwrap_or(loc);
+            out.push(Finding { clause: "panic", faults: vec![], detail: loc.to_string(), what: format!("the receive path panicked: {p}") });
+            return out;
+        }
+        Obs::Reset { code, subcode, text } => {
+            if !exp.reset_ok {
+                out.push(Finding {
+                    clause: "needless-reset",
+                    faults: all_faults(exp),
+                    detail: String::new(),
+                    what: format!(
+                        "NOTIFICATION {code}/{subcode} ({text}) although the NLRI can be located and parsed (reference: {}); expected {}",
+                        exp.class(),
+                        if exp.must_withdraw { "treat-as-withdraw" } else { "the session to stay up" }
+                    ),
+                });
+            }
+            return out;
+        }
+        Obs::Msgs(m) => m,
+    };
+    let reaches: Vec<(&u16, &u8, &Option<String>, &Vec<Pfx>, &Vec<(u8, Repr)>)> = msgs
+        .iter()
+        .filter_map(|m| if let ObsMsg::Reach { afi, safi, nexthop, pfx, attrs } = m { Some((afi, safi, nexthop, pfx, attrs)) } else { None })
+        .collect();
+    let unreached: BTreeSet<&Pfx> = msgs.iter().filter_map(|m| if let ObsMsg::Unreach { pfx, .. } = m { Some(pfx.iter()) } else { None }).flatten().collect();
+    // (e) iBGP-only attributes from an external peer
+    if role.external() {
+        let mut seen = BTreeSet::new();
+        for r in &reaches {
+            for (c, _) in r.4.iter() {
+                if matches!(c, 5 | 9 | 10) && seen.insert(*c) {
+                    out.push(Finding {
+                        clause: "ibgp-only-attr-believed",
+                        faults: vec![],
+                        detail: format!("{}:{}", role.name(), attr_name(*c)),
+                        what: format!("a route from an external peer ({}) is delivered with {}; it must be dropped", role.name(), attr_name(*c).to_uppercase()),
+                    });
+                }
+            }
+        }
+    }
+    // (a) a faulty attribute is believed
+    let mut believed_any = false;
+    for f in exp.hard.iter().chain(exp.disc.iter()) {
+        let hit = match f.code {
+            _ if f.block => false,
+            15 => false,
+            3 => reaches.iter().any(|r| *r.0 == 1 && *r.1 == 1 && r.2.is_some()),
+            14 => reaches.iter().any(|r| !(*r.0 == 1 && *r.1 == 1) || !exp.has_legacy_nlri),
+            c => reaches.iter().any(|r| r.4.iter().any(|(rc, _)| *rc == c)),
+        };
+        if hit {
+            believed_any = true;
+            out.push(Finding {
+                clause: "faulty-attr-believed",
+                faults: vec![f.name()],
+                detail: String::new(),
+                what: format!("{} is faulty ({}) but a route is delivered that carries / uses it", attr_name(f.code).to_uppercase(), f.why),
+            });
+        }
+    }
+    for d in &exp.dups {
+        if d.first != d.second && reaches.iter().any(|r| r.4.iter().any(|(c, v)| *c == d.code && *v == d.second)) {
+            believed_any = true;
+            out.push(Finding {
+                clause: "faulty-attr-believed",
+                faults: vec![format!("{}:duplicate", attr_name(d.code))],
+                detail: String::new(),
+                what: format!("{} appears twice; the value of the second occurrence is used (RFC 7606 3 g: all but the first are discarded)", attr_name(d.code).to_uppercase()),
+            });
+        }
+    }
+    for (code, plain, as4) in [(2u8, &exp.plain_as_path, 17u8), (7u8, &exp.plain_aggregator, 18u8)] {
+        if let Some(p) = plain {
+            if reaches.iter().any(|r| r.4.iter().any(|(c, v)| *c == code && *v != Repr::Bytes(p.clone()))) {
+                believed_any = true;
+                let name = exp.disc.iter().find(|f| f.code == as4).map(|f| f.name()).unwrap_or_else(|| attr_name(as4));
+                out.push(Finding {
+                    clause: "faulty-attr-believed",
+                    faults: vec![name],
+                    detail: "merged".into(),
+                    what: format!("{} is faulty but the delivered {} differs from the one on the wire: the faulty attribute was merged in", attr_name(as4).to_uppercase(), attr_name(code).to_uppercase()),
+                });
+            }
+        }
+    }
+    if exp.relaxed {
+        return out;
+    }
+    // (b) treat-as-withdraw
+    if exp.must_withdraw {
+        let hard_names: Vec<String> = exp.hard.iter().map(|f| f.name()).collect();
+        if !reaches.is_empty() {
+            if exp.hard.is_empty() {
+                out.push(Finding {
+                    clause: "missing-mandatory-accepted",
+                    faults: vec![],
+                    detail: attr_name(exp.missing[0]),
+                    what: format!(
+                        "mandatory {} absent but {} prefix(es) are delivered as reachable",
+                        exp.missing.iter().map(|c| attr_name(*c).to_uppercase()).collect::<Vec<_>>().join(", "),
+                        reaches.iter().map(|r| r.3.len()).sum::<usize>()
+                    ),
+                });
+            } else if !believed_any {
+                out.push(Finding {
+                    clause: "not-treated-as-withdraw",
+                    faults: hard_names,
+                    detail: String::new(),
+                    what: format!(
+                        "{} requires treat-as-withdraw but prefixes are delivered as reachable",
+                        exp.hard.iter().map(|f| format!("{} ({})", f.name(), f.why)).collect::<Vec<_>>().join(", ")
+                    ),
+                });
+            }
+        } else {
+            let lost: Vec<String> = exp.announced.iter().filter(|p| !unreached.contains(p)).map(|p| p.show()).collect();
+            if !lost.is_empty() {
+                let mut names = hard_names;
+                names.extend(exp.missing.iter().map(|c| format!("{}:missing", attr_name(*c))));
+                out.push(Finding {
+                    clause: "not-treated-as-withdraw",
+                    faults: names,
+                    detail: "silently-ignored".into(),
+                    what: format!(
+                        "{} requires treat-as-withdraw of the announced prefixes, but {} are neither withdrawn nor is the session reset: an older route for them stays installed",
+                        exp.hard.iter().map(|f| format!("{} ({})", f.name(), f.why)).chain(exp.missing.iter().map(|c| format!("{} missing", attr_name(*c)))).collect::<Vec<_>>().join(", "),
+                        lost.join(" ")
+                    ),
+                });
+            }
+        }
+    }
+    // (c) withdrawals of the same message still take effect
+    let lost_legacy: Vec<String> = exp.withdrawn_legacy.iter().filter(|p| !unreached.contains(p)).map(|p| p.show()).collect();
+    let lost_mp: Vec<String> = exp.withdrawn.iter().filter(|p| !exp.withdrawn_legacy.contains(p) && !unreached.contains(p)).map(|p| p.show()).collect();
+    for (kind, lost) in [("legacy", lost_legacy), ("mp", lost_mp)] {
+        if !lost.is_empty() {
+            out.push(Finding {
+                clause: "withdrawal-lost",
+                faults: all_faults(exp),
+                detail: kind.into(),
+                what: format!("the UPDATE withdraws {} ({kind} encoding) but no Unreach is delivered for them (reference: {})", lost.join(" "), exp.class()),
+            });
+        }
+    }
+    out
+}
+
+// ===========================================================================
+// Enumeration driver
+// ===========================================================================
+
+struct Config {
+    shape: Shape,
+    reversed: bool,
+    two_byte: bool,
+    base: Msg,
+    menu: Vec<Corr>,
+}
+
+impl Config {
+    fn name(&self) -> String {
+        format!("{}/{}", self.shape.name(), if self.reversed { "desc" } else { "asc" })
+    }
+}
+
+fn configs() -> Vec<Config> {
+    let mut v = Vec::new();
+    for shape in SHAPES {
+        for reversed in [false, true] {
+            for two_byte in [false, true] {
+                let base = base_msg(shape, reversed, two_byte);
+                let menu = menu(&base, two_byte);
+                v.push(Config { shape, reversed, two_byte, base, menu });
+            }
+        }
+    }
+    v
+}
+
+/// (clause, fault name, detail)
+type Key = (&'static str, String, String);
+
+fn keys(f: &[Finding]) -> BTreeSet<Key> {
+    let mut s = BTreeSet::new();
+    for x in f {
+        if x.faults.is_empty() {
+            s.insert((x.clause, String::new(), x.detail.clone()));
+        }
+        for n in &x.faults {
+            s.insert((x.clause, n.clone(), x.detail.clone()));
+        }
+    }
+    s
+}
+
+fn case_string(cfg: &Config, role: Role, ids: &[&str], bytes: &[u8]) -> String {
+    format!(
+        "as={};role={};base={};corr={};bytes={}",
+        if cfg.two_byte { 2 } else { 4 },
+        role.name(),
+        cfg.name(),
+        if ids.is_empty() { "none".to_string() } else { ids.join(",") },
+        hex(bytes)
+    )
+}
+
+/// Signature of a finding: clause + the responsible fault "<attr>:<fault class>"
+/// as classified by the reference (not the generator's intent, so that all
+/// corruptions that expose the same unchecked condition share one signature).
+/// When several faults are candidates (pairs, or a shifted framing that garbles
+/// a neighbour), the one that produces the same finding in a single-corruption
+/// case of the same base / AS width / role (`alone`) is named; a defect that
+/// only shows with both gets a signature naming both.
+fn signature(f: &Finding, alone: &[BTreeSet<Key>]) -> String {
+    match f.clause {
+        "panic" | "ibgp-only-attr-believed" | "missing-mandatory-accepted" => format!("C05/{}/{}", f.clause, f.detail),
+        _ => {
+            let shape = if f.faults.is_empty() {
+                "valid-update".to_string()
+            } else if f.faults.len() == 1 {
+                f.faults[0].clone()
+            } else {
+                let owned: Vec<&String> = f.faults.iter().filter(|n| alone.iter().any(|a| a.contains(&(f.clause, (*n).clone(), f.detail.clone())))).collect();
+                match owned.first() {
+                    Some(n) => (*n).clone(),
+                    None => f.faults.join("+"),
+                }
+            };
+            if f.detail.is_empty() { format!("C05/{}/{}", f.clause, shape) } else { format!("C05/{}/{}({})", f.clause, shape, f.detail) }
+        }
+    }
+}
+
+struct Evaluated {
+    exp: Expect,
+    obs: Obs,
+    findings: Vec<Finding>,
+}
+
+fn evaluate(bytes: &[u8], two_byte: bool, role: Role) -> Evaluated {
+    let exp = reference(bytes, two_byte, role);
+    let obs = run_subject(bytes, two_byte, role.daemon_is_ebgp());
+    let findings = judge(&exp, role, &obs);
+    Evaluated { exp, obs, findings }
+}
+
+fn fnv(bytes: &[u8], two_byte: bool) -> u64 {
+    let mut h: u64 = 0xcbf29ce484222325 ^ two_byte as u64;
+    for b in bytes {
+        h ^= *b as u64;
+        h = h.wrapping_mul(0x100000001b3);
+    }
+    h
+}
+
+struct Shared {
+    distinct: Vec<Mutex<HashSet<u64>>>,
+}
+
+impl Shared {
+    fn new() -> Shared {
+        Shared { distinct: (0..64).map(|_| Mutex::new(HashSet::new())).collect() }
+    }
+    fn note(&self, h: u64) {
+        self.distinct[(h % 64) as usize].lock().unwrap().insert(h);
+    }
+    fn count(&self) -> u64 {
+        self.distinct.iter().map(|m| m.lock().unwrap().len() as u64).sum()
+    }
+}
+
+/// Evaluate one corrupted frame for all roles; returns the per-role keys.
+fn eval_all_roles(
+    cfg: &Config,
+    ids: &[&str],
+    bytes: &[u8],
+    alone: &dyn Fn(usize) -> Vec<BTreeSet<Key>>,
+    known: &BTreeSet<String>,
+    shared: &Shared,
+    rep: &mut Report,
+) -> Vec<BTreeSet<Key>> {
+    let mut per_role = Vec::with_capacity(4);
+    for (ri, role) in ROLES.iter().enumerate() {
+        let ev = evaluate(bytes, cfg.two_byte, *role);
+        rep.evaluations += 1;
+        if ri == 0 && ev.exp.nontrivial() {
+            shared.note(fnv(bytes, cfg.two_byte));
+        }
+        rep.add(&format!("outcome ref={} subject={}", ev.exp.class(), ev.obs.class()), 1);
+        if let Ok(t) = std::env::var("VERIF_C05_TRACE") {
+            // debugging aid: print the cases of one outcome class, e.g. "structural/nothing"
+            if t == format!("{}/{}", ev.exp.class(), ev.obs.class()) {
+                eprintln!("trace {}: {} => {} ;; {:?}", t, case_string(cfg, *role, ids, bytes), ev.obs.show(), ev.exp.structural);
+            }
+        }
+        if !ev.findings.is_empty() {
+            let al = if ids.len() > 1 { alone(ri) } else { Vec::new() };
+            let case = case_string(cfg, *role, ids, bytes);
+            for f in &ev.findings {
+                let sig = signature(f, &al);
+                if known.contains(&sig) {
+                    // already witnessed by a smaller case (valid base / single corruption): keep that witness
+                    rep.add(&format!("repeats {sig}"), 1);
+                } else {
+                    rep.violation(Violation { sig, what: f.what.clone(), case: case.clone() });
+                }
+            }
+        }
+        per_role.push(keys(&ev.findings));
+    }
+    per_role
+}
+
+fn self_check(cfgs: &[Config], rep: &mut Report) {
+    for cfg in cfgs {
+        let bytes = cfg.base.frame();
+        let name = format!("{} as{}", cfg.name(), if cfg.two_byte { 2 } else { 4 });
+        // the independent strict reader accepts the base and sees the same attributes
+        match wire::read_frame(&bytes, 4096) {
+            Ok(fr) => match fr.body {
+                wire::Body::Update(u) => {
+                    let codes: Vec<u8> = u.attrs.iter().map(|a| a.code).collect();
+                    let mine: Vec<u8> = cfg.base.items.iter().map(|i| i.code).collect();
+                    if codes != mine {
+                        rep.machinery_error = Some(format!("self-check: base {name}: wire reader sees attributes {codes:?}, generator built {mine:?}"));
+                    }
+                }
+                _ => rep.machinery_error = Some(format!("self-check: base {name} is not an UPDATE")),
+            },
+            Err(e) => rep.machinery_error = Some(format!("self-check: base {name} rejected by wire::read_frame: {e}")),
+        }
+        for role in ROLES {
+            let exp = reference(&bytes, cfg.two_byte, role);
+            if exp.nontrivial() {
+                rep.machinery_error = Some(format!("self-check: reference finds faults in the valid base {name}: {exp:?}"));
+            }
+            // non-vacuity: the subject delivers every announced prefix of the valid base as
+            // reachable and every withdrawn one as unreachable
+            match run_subject(&bytes, cfg.two_byte, role.daemon_is_ebgp()) {
+                Obs::Msgs(m) => {
+                    let r: BTreeSet<&Pfx> = m.iter().filter_map(|x| if let ObsMsg::Reach { pfx, .. } = x { Some(pfx.iter()) } else { None }).flatten().collect();
+                    let u: BTreeSet<&Pfx> = m.iter().filter_map(|x| if let ObsMsg::Unreach { pfx, .. } = x { Some(pfx.iter()) } else { None }).flatten().collect();
+                    if exp.announced.is_empty() || !exp.announced.iter().all(|p| r.contains(p)) || !exp.withdrawn.iter().all(|p| u.contains(p)) {
+                        rep.machinery_error = Some(format!("self-check: valid base {name} is not delivered completely: {}", Obs::Msgs(m.clone()).show()));
+                    }
+                }
+                o => rep.machinery_error = Some(format!("self-check: valid base {name} not accepted by the subject: {}", o.show())),
+            }
+        }
+    }
+}
+
+pub fn run(replay: Option<&str>) -> Report {
     let mut rep = Report::new("C05", "hx-c05");
-    rep.machinery_error = Some("harness not built yet".into());
+    if let Some(case) = replay {
+        return run_replay(rep, case);
+    }
+    let thorough = rep.thorough();
+    let cfgs = configs();
+    self_check(&cfgs, &mut rep);
+    if rep.machinery_error.is_some() {
+        return rep;
+    }
+    let shared = Shared::new();
+
+    // ---- valid bases first: their witnesses (a valid UPDATE) take precedence ------
+    let no_alone = |_: usize| Vec::new();
+    let none_known: BTreeSet<String> = BTreeSet::new();
+    for cfg in &cfgs {
+        let bytes = cfg.base.frame();
+        eval_all_roles(cfg, &[], &bytes, &no_alone, &none_known, &shared, &mut rep);
+    }
+    let known0: BTreeSet<String> = rep.violations.keys().cloned().collect();
+
+    // ---- single corruptions ----------------------------------------------------
+    // job = (config, menu index); all four roles inside the job
+    let mut jobs: Vec<(usize, usize)> = Vec::new();
+    for (ci, c) in cfgs.iter().enumerate() {
+        for k in 0..c.menu.len() {
+            jobs.push((ci, k));
+        }
+    }
+    // keys of every single corruption, per role: singles[ci][k][role]
+    let singles: Vec<Vec<OnceLock<Vec<BTreeSet<Key>>>>> = cfgs.iter().map(|c| (0..c.menu.len()).map(|_| OnceLock::new()).collect()).collect();
+    enumr::par_range(jobs.len() as u64, &mut rep, |i, local| {
+        let (ci, k) = jobs[i as usize];
+        let cfg = &cfgs[ci];
+        let c = &cfg.menu[k];
+        let Some(bytes) = build(&cfg.base, &[c]) else {
+            let _ = singles[ci][k].set(vec![BTreeSet::new(); 4]);
+            return;
+        };
+        let keys = eval_all_roles(cfg, &[c.id.as_str()], &bytes, &no_alone, &known0, &shared, local);
+        local.sample(i, || format!("{} -> ref {}", case_string(cfg, Role::Ebgp, &[c.id.as_str()], &bytes), reference(&bytes, cfg.two_byte, Role::Ebgp).class()));
+        let _ = singles[ci][k].set(keys);
+    });
+    let n_single: usize = cfgs.iter().map(|c| c.menu.len()).sum();
+    let evals_single = rep.evaluations;
+    rep.notes.push(format!(
+        "singles: {} bases (3 shapes x 2 attribute orders x AS width 2/4) with {} single corruptions in total (menu sizes {:?}), x 4 roles = {} evaluations",
+        cfgs.len(),
+        n_single,
+        cfgs.iter().map(|c| c.menu.len()).collect::<Vec<_>>(),
+        evals_single
+    ));
+
+    // ---- pairs (thorough) ------------------------------------------------------
+    if thorough {
+        let mut pair_jobs: Vec<(u32, u16, u16)> = Vec::new();
+        for (ci, c) in cfgs.iter().enumerate() {
+            for a in 0..c.menu.len() {
+                for b in a + 1..c.menu.len() {
+                    if c.menu[a].target != c.menu[b].target {
+                        pair_jobs.push((ci as u32, a as u16, b as u16));
+                    }
+                }
+            }
+        }
+        let skipped = std::sync::atomic::AtomicU64::new(0);
+        let known: BTreeSet<String> = rep.violations.keys().cloned().collect();
+        enumr::par_range(pair_jobs.len() as u64, &mut rep, |i, local| {
+            let (ci, a, b) = pair_jobs[i as usize];
+            let (ci, a, b) = (ci as usize, a as usize, b as usize);
+            let cfg = &cfgs[ci];
+            let (ca, cb) = (&cfg.menu[a], &cfg.menu[b]);
+            let Some(bytes) = build(&cfg.base, &[ca, cb]) else {
+                skipped.fetch_add(1, std::sync::atomic::Ordering::Relaxed);
+                return;
+            };
+            let alone = |ri: usize| {
+                vec![
+                    singles[ci][a].get().map(|v| v[ri].clone()).unwrap_or_default(),
+                    singles[ci][b].get().map(|v| v[ri].clone()).unwrap_or_default(),
+                ]
+            };
+            eval_all_roles(cfg, &[ca.id.as_str(), cb.id.as_str()], &bytes, &alone, &known, &shared, local);
+        });
+        rep.notes.push(format!(
+            "pairs: {} pairs of corruptions on two distinct attributes (the block counts as one) of which {} do not compose (e.g. cut inside an omitted attribute), x 4 roles = {} evaluations",
+            pair_jobs.len(),
+            skipped.load(std::sync::atomic::Ordering::Relaxed),
+            rep.evaluations - evals_single
+        ));
+    }
+    rep.distinct_nontrivial = shared.count();
+    rep.exhaustive = true;
+    rep.rule = format!(
+        "valid UPDATE frames built by hand (shapes legacy reach+withdraw / MP_REACH+MP_UNREACH v6 / both; all {} attribute kinds; ascending and descending order; 2- and 4-octet AS) x every entry of the corruption menu (per attribute: length field +-1/0 raw and consistent, optional/transitive/partial flag flips, illegal values, duplicate, omission; per block: unknown well-known, cut / total-length at every attribute boundary and 4 positions inside every attribute, total length +1/+NLRI/past end, withdrawn length +-1) {} x roles Ebgp/RsClient/Ibgp/ConfedEbgp (is_ebgp as the daemon computes it). distinct non-trivial = distinct (frame bytes, AS width) in which the independent RFC 7606 reference receiver finds at least one fault",
+        all_items(false).len(),
+        if thorough { "singly and in all pairs on distinct attributes" } else { "singly" }
+    );
+    let (roles, prov) = daemon_is_ebgp_roles();
+    rep.notes.push(format!("assume: the daemon passes is_ebgp=true exactly for roles {:?} (read from {})", roles.iter().map(|r| r.name()).collect::<Vec<_>>(), prov));
+    rep.notes.push("assume: session negotiated IPv4+IPv6 unicast, no ADD-PATH, no extended next hop, 4096-byte messages; IbgpRrClient behaves as Ibgp on the receive path".into());
+    rep.notes.push("assume: permissive readings: partial bit never judged; NEXT_HOP 0.0.0.0 and NEXT_HOP without legacy NLRI not judged; content of PREFIX_SID/LS/TUNNEL_ENCAP not judged; malformed ATOMIC_AGGREGATE/AGGREGATOR may be discarded (RFC 7606 7.6/7.7); duplicate non-MP attribute: first kept or withdraw; attribute overrunning the block and MP attributes with wrong flags: treat-as-withdraw or reset".into());
     rep
+}
+
+// ===========================================================================
+// Replay
+// ===========================================================================
+
+fn field<'a>(case: &'a str, key: &str) -> Option<&'a str> {
+    case.split(';').find_map(|kv| kv.strip_prefix(key).and_then(|r| r.strip_prefix('=')))
+}
+
+fn find_config<'a>(cfgs: &'a [Config], base: &str, two_byte: bool) -> Option<&'a Config> {
+    cfgs.iter().find(|c| c.name() == base && c.two_byte == two_byte)
+}
+
+/// case = "as=<2|4>;role=<Role>;base=<shape>/<asc|desc>;corr=<id>[,<id>];bytes=<hex>"
+/// (`bytes` is authoritative; base/corr name the corruption for the signature
+/// and are re-generated for comparison).  `role=*` replays all roles.
+fn run_replay(mut rep: Report, case: &str) -> Report {
+    if let Some(rest) = case.strip_prefix("dump:") {
+        // "dump:<base>:<as>": table of every single corruption of one base (for reading)
+        let mut it = rest.split(':');
+        let (base, two_byte) = (it.next().unwrap_or("mixed/asc"), it.next() == Some("2"));
+        let cfgs = configs();
+        if let Some(cfg) = find_config(&cfgs, base, two_byte) {
+            for c in &cfg.menu {
+                let Some(bytes) = build(&cfg.base, &[c]) else { continue };
+                let mut line = format!("{:<44}", c.id);
+                for role in [Role::Ebgp, Role::Ibgp] {
+                    let ev = evaluate(&bytes, two_byte, role);
+                    let mut names: Vec<String> = ev.exp.hard.iter().map(|f| format!("H:{}", f.name())).collect();
+                    names.extend(ev.exp.disc.iter().map(|f| format!("D:{}", f.name())));
+                    names.extend(ev.exp.missing.iter().map(|c| format!("M:{}", attr_name(*c))));
+                    names.extend(ev.exp.dups.iter().map(|d| format!("dup:{}", attr_name(d.code))));
+                    if !ev.exp.structural.is_empty() {
+                        names.push(format!("S:{}", ev.exp.structural[0]));
+                    }
+                    line.push_str(&format!(" | {}: {} [{}] -> {}{}", role.name(), ev.exp.class(), names.join(","), ev.obs.class(), if ev.findings.is_empty() { "" } else { " !!" }));
+                }
+                eprintln!("{line}");
+                rep.evaluations += 2;
+            }
+        }
+        return rep;
+    }
+    let two_byte = field(case, "as") == Some("2");
+    let roles: Vec<Role> = match field(case, "role").and_then(Role::parse) {
+        Some(r) => vec![r],
+        None => ROLES.to_vec(),
+    };
+    let cfgs = configs();
+    let cfg = field(case, "base").and_then(|b| find_config(&cfgs, b, two_byte));
+    let ids: Vec<&str> = field(case, "corr").filter(|c| *c != "none").map(|c| c.split(',').collect()).unwrap_or_default();
+    let corrs: Vec<&Corr> = match cfg {
+        Some(c) => ids.iter().filter_map(|id| c.menu.iter().find(|m| m.id == *id)).collect(),
+        None => vec![],
+    };
+    let regenerated = cfg.and_then(|c| if corrs.len() == ids.len() { build(&c.base, &corrs) } else { None });
+    let bytes = match field(case, "bytes") {
+        Some(h) => unhex(h),
+        None => match &regenerated {
+            Some(b) => b.clone(),
+            None => {
+                rep.machinery_error = Some("replay: case has no bytes= and base/corr cannot be regenerated".into());
+                return rep;
+            }
+        },
+    };
+    if let Some(r) = &regenerated {
+        if *r != bytes {
+            eprintln!("c05 replay: NOTE bytes differ from what base/corr generate now ({} vs {} bytes)", bytes.len(), r.len());
+        }
+    }
+    eprintln!("c05 replay: {} bytes, as width {}, corruptions {:?}", bytes.len(), if two_byte { 2 } else { 4 }, ids);
+    eprintln!("c05 replay: frame {}", hex(&bytes));
+    for role in roles {
+        let ev = evaluate(&bytes, two_byte, role);
+        rep.evaluations += 1;
+        eprintln!("c05 replay: role {} (is_ebgp={})", role.name(), role.daemon_is_ebgp());
+        eprintln!("  reference: class={} reset_ok={} relaxed={} must_withdraw={}", ev.exp.class(), ev.exp.reset_ok, ev.exp.relaxed, ev.exp.must_withdraw);
+        for s in &ev.exp.structural {
+            eprintln!("    structural: {s}");
+        }
+        for f in &ev.exp.hard {
+            eprintln!("    hard: {} -- {}", f.name(), f.why);
+        }
+        for f in &ev.exp.disc {
+            eprintln!("    discardable: {} -- {}", f.name(), f.why);
+        }
+        for c in &ev.exp.missing {
+            eprintln!("    missing mandatory: {}", attr_name(*c));
+        }
+        for d in &ev.exp.dups {
+            eprintln!("    duplicate: {}", attr_name(d.code));
+        }
+        eprintln!("    announced: {}", ev.exp.announced.iter().map(|p| p.show()).collect::<Vec<_>>().join(" "));
+        eprintln!("    withdrawn: {}", ev.exp.withdrawn.iter().map(|p| p.show()).collect::<Vec<_>>().join(" "));
+        eprintln!("  subject: {}", ev.obs.show());
+        // attribution of pair findings needs the singles
+        let alone: Vec<BTreeSet<Key>> = if ids.len() > 1 && corrs.len() == ids.len() {
+            corrs
+                .iter()
+                .map(|c| match build(&cfg.unwrap().base, &[c]) {
+                    Some(b) => keys(&evaluate(&b, two_byte, role).findings),
+                    None => BTreeSet::new(),
+                })
+                .collect()
+        } else {
+            vec![BTreeSet::new(); ids.len()]
+        };
+        let cs = match cfg {
+            Some(c) => case_string(c, role, &ids, &bytes),
+            None => format!("as={};role={};base=?;corr={};bytes={}", if two_byte { 2 } else { 4 }, role.name(), ids.join(","), hex(&bytes)),
+        };
+        for f in &ev.findings {
+            let sig = signature(f, &alone);
+            eprintln!("  VIOLATION {sig}: {}", f.what);
+            rep.violation(Violation { sig, what: f.what.clone(), case: cs.clone() });
+        }
+        if ev.findings.is_empty() {
+            eprintln!("  no violation");
+        }
+    }
+    rep.rule = "replay of one case".into();
+    rep.distinct_nontrivial = 1;
+    rep
+}
+
+// ===========================================================================
+// Corpus for the end-to-end replay (in-crate harness)
+// ===========================================================================
+
+#[derive(Clone, Debug)]
+pub struct Case {
+    /// "<base>;as=<w>;<corruption ids>"
+    pub name: String,
+    pub bytes: Vec<u8>,
+    /// `PairDesc::name()` of the session: `mkmsg::pair_from_desc(Family::IPV6, &PairDesc::parse(..))`
+    pub codec_desc: String,
+    pub two_byte_as: bool,
+    pub role: Role,
+    /// the `is_ebgp` value the daemon computes for `role`
+    pub is_ebgp: bool,
+    pub expected: Expect,
+}
+
+/// Single-corruption cases (plus the valid bases).  quick: the "mixed" shape in
+/// ascending order, 4-octet AS, all roles; otherwise every base, AS width and
+/// role.  Pairs are not materialised (millions of frames): compose them with
+/// `corpus_pair`.
+pub fn corpus(quick: bool) -> Vec<Case> {
+    let mut out = Vec::new();
+    for cfg in configs() {
+        if quick && !(cfg.shape == Shape::Mixed && !cfg.reversed && !cfg.two_byte) {
+            continue;
+        }
+        let mut frames: Vec<(String, Vec<u8>)> = vec![("none".into(), cfg.base.frame())];
+        for c in &cfg.menu {
+            if let Some(b) = build(&cfg.base, &[c]) {
+                frames.push((c.id.clone(), b));
+            }
+        }
+        for (id, bytes) in frames {
+            for role in ROLES {
+                out.push(Case {
+                    name: format!("{};as={};{}", cfg.name(), if cfg.two_byte { 2 } else { 4 }, id),
+                    bytes: bytes.clone(),
+                    codec_desc: codec_desc(cfg.two_byte).name(),
+                    two_byte_as: cfg.two_byte,
+                    role,
+                    is_ebgp: role.daemon_is_ebgp(),
+                    expected: reference(&bytes, cfg.two_byte, role),
+                });
+            }
+        }
+    }
+    out
+}
+
+/// One pair case by corruption ids on the given base ("mixed/asc", ...).
+pub fn corpus_pair(base: &str, two_byte: bool, role: Role, id_a: &str, id_b: &str) -> Option<Case> {
+    let cfgs = configs();
+    let cfg = find_config(&cfgs, base, two_byte)?;
+    let a = cfg.menu.iter().find(|m| m.id == id_a)?;
+    let b = cfg.menu.iter().find(|m| m.id == id_b)?;
+    if a.target == b.target {
+        return None;
+    }
+    let bytes = build(&cfg.base, &[a, b])?;
+    Some(Case {
+        name: format!("{};as={};{},{}", cfg.name(), if two_byte { 2 } else { 4 }, id_a, id_b),
+        expected: reference(&bytes, two_byte, role),
+        bytes,
+        codec_desc: codec_desc(two_byte).name(),
+        two_byte_as: two_byte,
+        role,
+        is_ebgp: role.daemon_is_ebgp(),
+    })
 }
